@@ -3,7 +3,7 @@ CONSTANTS
   Me = "v0"
   Genesis <- G3w
   Menu <- MenuNone
-  MaxHeight = 2
+  MaxHeight = 1
   MaxRound = 1
   InvalidValues = {"ZX", "ZC"}
   EnvValues = {"Z0"}
